@@ -41,6 +41,15 @@ RULES3 = [(r'\bif ([^{}]*?[^ {}]) \{\s*$', r'if !(\1) {'), (r"':'", "'.'"), (r"'
           (r'=> Ok\(\(\)\),', '=> return Ok(()),'), (r'\.min\(', '.max(')]
 
 
+# fourth batch: string literals that look like identifiers / keys / extensions, constant conditions, dropped
+# conjuncts, break <-> continue, else-if chains cut
+RULES4 = [(r'"([A-Za-z_./:~=$\[\]{}-]{1,12})"', r'"\1x"'), (r'\bif (?!let\b)([^{}]*?[^ {}]) \{\s*$', 'if true {'),
+          (r'\bif (?!let\b)([^{}]*?[^ {}]) \{\s*$', 'if false {'),
+          (r'\bif (?!let\b)([^{}&|]+?) && ([^{}&|]+?) \{\s*$', r'if \1 {'), (r'\bif (?!let\b)([^{}&|]+?) && ([^{}&|]+?) \{\s*$', r'if \2 {'),
+          (r'\bif (?!let\b)([^{}&|]+?) \|\| ([^{}&|]+?) \{\s*$', r'if \1 {'), (r'\bif (?!let\b)([^{}&|]+?) \|\| ([^{}&|]+?) \{\s*$', r'if \2 {'),
+          (r'\bbreak;', 'continue;'), (r'\} else if ', '} if '), (r"'([a-z~=$:./_])'", r"'x'"),
+          (r'\.unwrap_or\(([a-z_"]+)\)', r'.unwrap_or(Default::default())'), (r'\.flattened\(\)\?', ''), (r'\.to_lexical_normal\(\)', '')]
+
 def sh(cmd, cwd=None, timeout=900):
     return subprocess.run(cmd, shell=True, cwd=cwd, stdout=subprocess.PIPE, stderr=subprocess.STDOUT, timeout=timeout)
 
@@ -137,6 +146,8 @@ if __name__ == '__main__':
         gen(int(sys.argv[2]) if len(sys.argv) > 2 else 200)
     elif sys.argv[1] == 'gen3':
         gen(int(sys.argv[2]) if len(sys.argv) > 2 else 300, rules=RULES3, tag='t', seed=13)
+    elif sys.argv[1] == 'gen4':
+        gen(int(sys.argv[2]) if len(sys.argv) > 2 else 300, rules=RULES4, tag='u', seed=17)
     elif sys.argv[1] == 'gen2':
         gen(int(sys.argv[2]) if len(sys.argv) > 2 else 300, rules=RULES2, tag='s', seed=11)
     else:
